@@ -6,12 +6,18 @@ namespace Driver
 def parseInt (s : String) : Option Int :=
   if s.startsWith "-" then (s.drop 1).toNat?.map (fun n => -(n : Int)) else s.toNat?.map (fun n => (n : Int))
 
-def cmdSN (a : List String) : String :=
+/-- spec side of SN: Bitcoin's value of the string; minimal = "is the encoding of its value" -/
+def specScriptNum (v : Bytes) (rm : Bool) (m : Nat) : Except Model.NumErr Int :=
+  if v.length > m then .error .overflow
+  else if rm && Model.serialize (Spec.numValue v) != v then .error .nonMinimal
+  else .ok (Spec.numValue v)
+
+def cmdSN (spec : Bool) (a : List String) : String :=
   match a with
   | [h, rm, mx] =>
     match ofHex h, mx.toNat? with
     | some v, some m =>
-      match Model.scriptNum v (rm == "1") m with
+      match (if spec then specScriptNum v (rm == "1") m else Model.scriptNum v (rm == "1") m) with
       | .ok n => s!"ok {n} {Model.getint n} {toHex (Model.serialize n)}"
       | .error .overflow => "err overflow"
       | .error .nonMinimal => "err nonminimal"
@@ -54,24 +60,26 @@ def cmdSNSWEEP (a : List String) : String :=
     return toString h.toNat
   | _ => "bad-op"
 
-def dispatch (line : String) : String :=
+def dispatch (spec : Bool) (line : String) : String :=
   match line.trimAscii.toString.splitOn " " with
-  | "SN" :: a => cmdSN a
+  | "SN" :: a => cmdSN spec a
   | "SNENC" :: a => cmdSNENC a
   | "SNSWEEP" :: a => cmdSNSWEEP a
   | [""] => ""
   | _ => "bad-op"
 
-partial def loop (h : IO.FS.Stream) (out : IO.FS.Stream) : IO Unit := do
+partial def loop (spec : Bool) (h : IO.FS.Stream) (out : IO.FS.Stream) : IO Unit := do
   let line ← h.getLine
   if line.isEmpty then return ()
-  out.putStrLn (dispatch line)
-  loop h out
+  out.putStrLn (dispatch spec line)
+  loop spec h out
 
 end Driver
 
-def main : IO Unit := do
+def main (args : List String) : IO Unit := do
   let i ← IO.getStdin
   let o ← IO.getStdout
-  Driver.loop i o
+  match args with
+  | ["spec"] => Driver.loop true i o
+  | _ => Driver.loop false i o
   o.flush
